@@ -102,11 +102,15 @@ pub struct MwScript {
     /// dispatch_thunk through the dispatcher argument of before_reduce
     #[serde(default)]
     pub thunk: Option<EffSpec>,
+    /// dispatch this action synchronously through the dispatcher argument of before_reduce
+    /// (only generated where the queue cannot be full, or under a drop policy)
+    #[serde(default)]
+    pub dispatch: Option<ActId>,
 }
 
 impl Default for MwScript {
     fn default() -> Self {
-        MwScript { verdict: [Verdict::Continue; 3], remove: vec![], read: [false; 3], thunk: None }
+        MwScript { verdict: [Verdict::Continue; 3], remove: vec![], read: [false; 3], thunk: None, dispatch: None }
     }
 }
 
